@@ -17,7 +17,29 @@ impl Checker for C11 {
     fn plan(&self) -> Plan {
         Plan::default()
     }
-    fn check(&self, _cfg: &Cfg, ops: &[Op], ex: &Exec) -> Vec<(String, String)> {
+    fn check(&self, cfg: &Cfg, ops: &[Op], ex: &Exec) -> Vec<(String, String)> {
+        let mut v = self.check_one(ops, ex);
+        // thorough tier: every single short transfer (one deviation from the default device answer) of every
+        // operation of the shallow histories, on the devices that otherwise transfer everything at once
+        let thorough = std::env::var("VERIF_TIER").map_or(false, |t| t == "thorough");
+        if thorough && v.is_empty() && ex.panic.is_none() && cfg.short == Short::Exact && ops.len() <= 2 && ex.rw_calls_last <= 1500 {
+            for k in 1..=ex.rw_calls_last {
+                let plan = Plan { short_at: Some(k), ..self.plan() };
+                let sx = harness::sess::run(cfg, ops, &plan);
+                for (sig, msg) in self.check_one(ops, &sx) {
+                    let sig = sig.replace("C11/", "C11/single-short-transfer/");
+                    if !v.iter().any(|(s, _)| *s == sig) {
+                        v.push((sig, format!("{msg} [read/write call {k} of the last operation transferred half of what was asked]")));
+                    }
+                }
+            }
+        }
+        v
+    }
+}
+
+impl C11 {
+    fn check_one(&self, ops: &[Op], ex: &Exec) -> Vec<(String, String)> {
         let mut v = o::o_writes("C11", ops, ex);
         // the sentinel tail after the declared end of the volume must be intact
         let st = ex.st.borrow();
